@@ -15,7 +15,11 @@ def h(t, part):
     acts = part['acts']
     calls = []
     with notrace():
-        w = worlds.SWorld(False, async_handlers=False)
+        kw = {}
+        if part.get('manager') == 'pubsub':
+            from harness import c07
+            kw['client_manager'] = c07.make_manager(False, [])
+        w = worlds.SWorld(False, async_handlers=False, **kw)
         sched = baton.Sched(lambda n: t.choice(n))
 
         def on_disconnect(sid, reason):
@@ -128,6 +132,11 @@ def parts(tier):
     import itertools
     out = [dict(p, pre=list(bits), eio_points=(tier == 'thorough' or heavy(p))) for p in out
            for bits in itertools.product((0, 1), repeat=5 if heavy(p) else 3)]
+    # the same on a host of a pub/sub cluster (can_disconnect() and disconnect() of the queue manager differ from the default)
+    out += [dict(acts=p, pre=[a, b, c], eio_points=False, manager='pubsub')
+            for p in (['server.disconnect', 'server.disconnect'], ['server.disconnect', 'client-DISCONNECT'],
+                      ['server.disconnect', 'transport-loss'])
+            for a in (0, 1) for b in (0, 1) for c in (0, 1)]
     if tier == 'thorough':
         main_pairs = [['server.disconnect', 'client-DISCONNECT'], ['server.disconnect', 'transport-loss'],
                       ['client-DISCONNECT', 'transport-loss'], ['server.disconnect', 'server.disconnect']]
